@@ -420,8 +420,8 @@ class Run:
                     continue
                 else:
                     raise core.HarnessError(f"unknown op {kind}")
-                if pen is not None:
-                    final = (x, pen)
+                if pen is not None and np.all(np.isfinite(pen)):
+                    final = (x, pen)  # like a real optimiser, the driver never reports a non-finite point as its solution
                 if not run.check_inputs(kind):
                     raise Abort()
             state["final"] = final
